@@ -1056,6 +1056,35 @@ def traces(ctx):
     ctx.extra["trace_wall_s"] = round(time.time() - t0, 1)
 
 
+# ---------------------------------------------------------------------------------------------- translation tie
+def gen(ctx):
+    """regenerate Gen/LiveSetTx.lean: `NestedSampler.insert_live_point` translated statement by statement by
+    harness/pyarr2lean.py into the Python/NumPy indexing semantics of Model/PySlice.lean.  The theorem
+    C01.insert_live_point_source_eq_model (generated definition = hand-written slice program `insertLive`, for every live set
+    and point) is then re-proved against what the source says now."""
+    from . import core, pyarr2lean, py2lean
+    spec = pyarr2lean.ArrSpec(
+        source="nessai/samplers/nestedsampler.py", func="insert_live_point", cls="NestedSampler", name="insert_live_point",
+        params=[("self.live_points", "self_live_points", "arr"), ("live_point", "live_point", "rec")],
+        outputs=["self.live_points"], doc="`NestedSampler.insert_live_point` (returns the new live set and the reported index)")
+    try:
+        t = pyarr2lean.translate_arr(core.REPO, spec)
+    except py2lean.TranslationError as e:
+        ctx.broken(f"translator: NestedSampler.insert_live_point: {e}",
+                   "Gen/LiveSetTx.lean was left as it was (the theorem is about the last translatable source)")
+        return
+    except (OSError, SyntaxError) as e:
+        ctx.broken(f"translator: cannot read/parse the source: {e}")
+        return
+    text = ("import NessaiVerif.Model.PySlice\nimport NessaiVerif.Model.LiveSet\n"
+            "/-\nGENERATED by harness/pyarr2lean.py (harness/c01.py gen) from the CURRENT nessai source — do not edit.\n"
+            "C01: array code of the standard sampler's live-set update, in the Python/NumPy indexing semantics of Model/PySlice.lean.\n-/\n"
+            "namespace NessaiVerif.Gen.LiveSetTx\nopen NessaiVerif NessaiVerif.LiveSet\n\n" + t.lean + "\nend NessaiVerif.Gen.LiveSetTx\n")
+    changed = py2lean.write_if_changed(core.LEAN / "NessaiVerif" / "Gen" / "LiveSetTx.lean", text)
+    ctx.extra["generated"] = {"insert_live_point": dict(source=spec.source, lines=[t.first_line, t.last_line], sha256=t.sha256,
+                                                        rewritten=changed)}
+
+
 # ---------------------------------------------------------------------------------------------- entry points
 def corpus(ctx):
     """minimised past cases: corpus/C01/*.ops — one `n ops cand,cand,...` per line"""
@@ -1080,6 +1109,8 @@ def corpus(ctx):
 
 
 def correspond(ctx):
+    from . import np_prims
+    np_prims.validate(ctx, ctx.scale(60, 600))     # NumPy primitives + Python/NumPy indexing semantics (Model/PySlice.lean)
     ctx.rule = ("(a) every call of the real populate_live_points / consume_sample / finalise in generated scripted scenarios "
                 "(nlive in {1,2,3,5,10,11,13,20,30[,50,100]}, 0..4n+5 iterations, integer likelihood alphabet with ties; 30% of "
                 "scenarios add NaN/-inf likelihoods, NaN/+inf priors, out-of-bounds points) compared with the Lean model after "
